@@ -1,7 +1,7 @@
 /-
   Engine `expr` (C03): `(expr <C|PY> <ast>)` → `#hex` of the generated text, as `hx_expr`.
 -/
-import Cellml.Gen.Model
+import Cellml.Gen.Spec
 import Cellml.Generated.Profiles
 import Cellml.Wire
 namespace Cellml.Engine.Expr
@@ -22,13 +22,27 @@ def parseAstP : Nat → Sexp → Option Ast
 
 def showHex (s : String) : String := "#" ++ (if s.isEmpty then "" else toHex s.toList)
 
+def noSpace (s : String) : String := String.ofList (s.toList.filter (· ≠ ' '))
+
+def tokText (p : Profile) : Tok → String
+  | .atom s => s
+  | .op o => noSpace (p.opStr o)
+  | .lp => "(" | .rp => ")" | .comma => "," | .q => "?" | .colon => ":" | .kwIf => "if" | .kwElse => "else"
+
+/-- the token view of a document spells the rendered text (spaces aside) -/
+def lexOK (p : Profile) (d : Doc) : Bool :=
+  String.join ((toks p.style d).map (tokText p)) == noSpace (render p d)
+
+def flag (b : Bool) : String := if b then "1" else "0"
+
 def answer (line : String) : String :=
   match parseSexp line with
   | some (.list [.atom "expr", .atom prof, a]) =>
     match parseAstP 1000 a with
     | some ast =>
       let p := if prof = "C" then Cellml.Generated.Profiles.profC else Cellml.Generated.Profiles.profPy
-      showHex (gen p ast)
+      let d := genDoc p ast
+      showHex (render p d) ++ " ex=" ++ flag (exprOK .expr ast) ++ " ok=" ++ flag (ok p.style d) ++ " lex=" ++ flag (lexOK p d)
     | none => "bad-line"
   | _ => "bad-line"
 
